@@ -10,7 +10,7 @@ rm -rf "$OUT"; mkdir -p "$OUT"
 git -C /repo worktree remove --force $WT 2>/dev/null; rm -rf $WT
 git -C /repo worktree add --detach -q $WT HEAD || exit 2
 DEMO=$(git -C $SRC status --porcelain | grep '^??' | grep -v '_out/' | awk '{print $2}' | head -1)
-CMD=$(grep -h "go test" $SRC/_out/demo_cmd.txt | grep -v '^#' | head -1 | sed 's/^cd [^&]*&& *//; s/ 2>&1.*$//; s/ *|.*$//')
+CMD=$(grep -v '^ *#' $SRC/_out/demo_cmd.txt | grep -o "go test[^'|;&]*" | head -1 | sed 's/ *2>.*$//')
 cp $SRC/_out/patch.diff $OUT/patch.diff
 cp -r $SRC/$DEMO $OUT/$(basename $DEMO)
 cp $SRC/_out/notes.md $OUT/agent_notes.md 2>/dev/null
